@@ -1,4 +1,4 @@
-from . import cycle, sidecar, proxy, store, k8s, discovery, explore, pipeline, cfgsync, inject, loop
+from . import cycle, sidecar, proxy, store, k8s, discovery, explore, pipeline, cfgsync, inject, loop, replicas
 CHECKS = {}
 for p in cycle.PROPS:
     CHECKS[p] = cycle.check
@@ -16,3 +16,4 @@ CHECKS['C16'] = cfgsync.check
 CHECKS['C11'] = inject.check
 CHECKS['C03'] = loop.check
 CHECKS['C06'] = loop.check
+CHECKS['C19'] = replicas.check
